@@ -9,7 +9,9 @@
 (* is annihilated by the group order r:  [r]x = identity, evaluated by the *)
 (* DEFINITION (double-and-add / square-and-multiply, balanced recursion of *)
 (* model/CurveXB) - the per-family endomorphism equations the library uses *)
-(* instead are not specified, only their verdict.                          *)
+(* instead are not specified, only their verdict.  Operands are given in   *)
+(* affine form or in the build's projective system (the routines multiply  *)
+(* and add them with the build's formulas).                                *)
 (* For GT: the elements of F_p12^* with x^r = 1 form THE subgroup of order *)
 (* r of a cyclic group; it lies in the cyclotomic subgroup (the elements   *)
 (* with x^Phi12(p) = 1, Phi12(p) = p^4 - p^2 + 1) iff r divides Phi12(p),  *)
@@ -31,7 +33,6 @@ EXTENDS Ep2Spec
 Crv1(e) == [p |-> FPrime(e), a |-> FAbs(e, e.ca), b |-> FAbs(e, e.cb)]
 Rep1Ok(e, P, sys) == /\ ValidTag(P) /\ PCanon(e, P) /\ P.c \in {1, sys}
                      /\ (P.c = 1 => FAbs(e, P.z) \in {<<>>, <<1>>})
-AnyRep1(e, P) == ValidTag(P) /\ PCanon(e, P) /\ (P.c = 1 => FAbs(e, P.z) \in {<<>>, <<1>>})
 Ret1(e, X) == Ok(e) /\ ValidTag(e.R) /\ PCanon(e, e.R) /\ PEq(PAbs(e, e.R), X)
 KP1(e, k, P) == PMulSB(KNeg(k), BNorm(k.d), PAbs(e, P), Crv1(e))
 RECURSIVE Sum1Seq(_, _)
@@ -95,9 +96,9 @@ PcAccept(e) ==
     IN
     TowerOk(e) /\
     CASE e.op = "g1_is_valid" ->
-            AnyRep1(e, e.P) /\ Ok(e) /\ e.ret \in {0, 1} /\ ((e.ret = 1) <=> G1Valid(e, e.P))
+            Rep1Ok(e, e.P, e.add) /\ Ok(e) /\ e.ret \in {0, 1} /\ ((e.ret = 1) <=> G1Valid(e, e.P))
       [] e.op = "g2_is_valid" ->
-            AnyRep(e, cx, e.P) /\ Ok(e) /\ e.ret \in {0, 1} /\ ((e.ret = 1) <=> G2Valid(e, cx, e.P))
+            RepOk(e, cx, e.P, e.add) /\ Ok(e) /\ e.ret \in {0, 1} /\ ((e.ret = 1) <=> G2Valid(e, cx, e.P))
       [] e.op = "gt_is_valid" ->
             /\ Tower12Ok(e, cx) /\ F12Canon(e, e.A) /\ Ok(e) /\ e.ret \in {0, 1}
             /\ ((e.ret = 1) <=> GtValid(e, cx, F12A(cx, e.A)))
